@@ -19,14 +19,14 @@ def run(tier, seed, replay=None):
     wd = vctl_common.run_dir(pid)
     v = vlib.Verdict(pid, tier, seed)
     r = vlib.tlc_must_pass(SPEC, "ControlSession_c15.cfg", wd, workers=1, timeout=600)
-    wit = vlib.witnesses(SPEC, "ControlSession_c15.cfg", ["W15_NoRefusal"] if tier == "quick" else ["W15_NoRemoteEffect", "W15_NoUnixBypass", "W15_NoRefusal"], wd, workers=1)
+    wit = [] if replay else vlib.witnesses(SPEC, "ControlSession_c15.cfg", ["W15_NoRefusal"] if tier == "quick" else ["W15_NoRemoteEffect", "W15_NoUnixBypass", "W15_NoRefusal"], wd, workers=1)
     vectors = os.path.join(r.dir, "c15.ndjson")
     nvec = sum(1 for _ in open(vectors))
     if nvec != r.distinct:
         raise vlib.Inconclusive("vector file has %d lines but TLC found %d distinct states" % (nvec, r.distinct))
     vctl = vlib.build_harness("vctl")
     quick = tier == "quick"
-    inst = 1 if quick else 3
+    inst = 1 if quick else 2
     args = ["c15", "-vectors", vectors, "-receptor", vctl_common.receptor_copy(wd), "-work", wd, "-seed", str(seed), "-instances", str(inst)]
     if quick:
         # seeded stratified subset: two rotating token classes in every (command, connection, work type) cell, plus valid and
